@@ -1,5 +1,5 @@
 \* negative job: this mutant of the model must be rejected by GensymFunction (anti-vacuity)
-CONSTANTS MaxDepth = 1  SharedEnv = FALSE  NoEnv = TRUE  QualSpecial = FALSE
+CONSTANTS MaxDepth = 1  SharedEnv = FALSE  NoEnv = TRUE  QualSpecial = FALSE  NestShares = FALSE
 SPECIFICATION Spec
 INVARIANT GensymFunction
 CHECK_DEADLOCK FALSE
